@@ -2,6 +2,6 @@ CONSTANTS MaxSteps = 99  Rich = FALSE  Variants = {1, 2, 3, 4}  Focus = "all"  S
 INIT Init
 NEXT Next
 CONSTRAINT SimBound
-INVARIANTS C20_Design AppIndex_Design C28_Relays C24_NoOverdue SupplyOK EmitSim
+INVARIANTS C20_Design AppIndex_Design C28_Relays C28_Chains C24_NoOverdue SupplyOK EmitSim
 PROPERTIES C28_Design C23_Design C24_Design Unauth_Design
 CHECK_DEADLOCK FALSE
